@@ -47,3 +47,47 @@ Proof.
   intros Hr Hf. destruct (concurrent_store_is_sequential progs (init t) sched s Hr Hf) as [-> _].
   exact (never_both (init t) _ id (inv_init t)).
 Qed.
+
+(* [final] is the state component of [run] (the harness evaluates [run]; the theorems speak of [final]) *)
+Lemma final_is_fst_run ops : forall s, fst (run s ops) = final s ops.
+Proof.
+  induction ops as [|o r IH]; intros s; cbn [run]; [reflexivity|].
+  unfold final; cbn [fold_left]. fold (final (fst (step s o)) r). rewrite <- IH.
+  destruct (step s o) as [s1 x]. cbn [fst]. destruct (run s1 r) as [s2 xs]. reflexivity.
+Qed.
+
+(* every concurrent execution from the empty store leaves the two Go maps in the state of ONE register
+   id -> (status, expiry) that has seen the same operations in lock-acquisition order *)
+Theorem concurrent_refines_single_register t progs sched (s : cstate) :
+  SerialEq.run ueqb dupd sched (SerialEq.init progs (fun _ => init t)) = Some s -> SerialEq.finished s = true ->
+  R (SerialEq.st s tt) (fst (spec_run (mkspec [] t) (map (@SerialEq.c_op unit op) (SerialEq.acqs s)))).
+Proof.
+  intros Hr Hf. destruct (concurrent_store_is_sequential progs (init t) sched s Hr Hf) as [-> _].
+  rewrite <- final_is_fst_run.
+  exact (proj1 (refinement_run _ (init t) (mkspec [] t) (inv_init t) (R_init t))).
+Qed.
+
+(* ... and the list endpoints, asked after any concurrent execution, report exactly its contents *)
+Theorem concurrent_lists_exact t progs sched (s : cstate) id :
+  SerialEq.run ueqb dupd sched (SerialEq.init progs (fun _ => init t)) = Some s -> SerialEq.finished s = true ->
+  (forall l, snd (step (SerialEq.st s tt) HListDeny) = RList l ->
+     (In id l <-> exists e, abs_lookup (SerialEq.st s tt) id = Some (Denied, e))) /\
+  (forall l, snd (step (SerialEq.st s tt) HListAllow) = RList l ->
+     (In id l <-> exists e, abs_lookup (SerialEq.st s tt) id = Some (Allowed, e))).
+Proof.
+  intros Hr Hf. destruct (concurrent_store_is_sequential progs (init t) sched s Hr Hf) as [-> _].
+  exact (lists_exact _ id (inv_final _ _ (inv_init t))).
+Qed.
+
+(* ... and an entry that no later operation touched and whose expiry has not passed is still there, unchanged:
+   the last deny/allow for an id, in lock-acquisition order, decides its status *)
+Theorem concurrent_last_writer_wins t progs sched (s : cstate) ops1 o ops2 id w e :
+  SerialEq.run ueqb dupd sched (SerialEq.init progs (fun _ => init t)) = Some s -> SerialEq.finished s = true ->
+  map (@SerialEq.c_op unit op) (SerialEq.acqs s) = ops1 ++ o :: ops2 ->
+  sets (final (init t) ops1) o id = Some (w, e) ->
+  quiet (fst (step (final (init t) ops1) o)) ops2 id e ->
+  abs_lookup (SerialEq.st s tt) id = Some (w, e).
+Proof.
+  intros Hr Hf Hh Hs Hq. destruct (concurrent_store_is_sequential progs (init t) sched s Hr Hf) as [-> _].
+  rewrite Hh. exact (last_writer_wins (init t) ops1 o ops2 id w e (inv_init t) Hs Hq).
+Qed.
